@@ -1,5 +1,7 @@
 import HappyProofs.C08.PipeParts
 import HappyProofs.C08.FairStep
+import HappyProofs.C08.FairCap
+import HappyProofs.C08.IndusSoundC
 /-!
 # C08 — property theorems
 
